@@ -193,8 +193,43 @@ def expand(chunk):
                                    "flow_rate": 0.5 if flow == "borehole" else 0.1 + 0.2 + 3}
 
 
+def run_same_design(case, res):
+    """the written file, loaded through the command-line path, designs exactly like the API configuration it was written from"""
+    from vf import physics
+
+    cfg = dict(case["cfg"])
+    cfg["loads"] = list(physics.loads("office"))
+    tmp = Path(tempfile.mkdtemp(prefix="vf-c17-"))
+    try:
+        m1 = build(cfg)
+        w1 = tmp / "w1.json"
+        m1.write_input_file(w1)
+        rc, m2 = load_through_cli(w1)
+        res["evals"] += 1
+        if rc != 0 or m2 is None:
+            res["violations"].append(core.viol("written_file_not_loadable", case, msg=f"{cfg['method']}: loader returned {rc}", method=cfg["method"]))
+            return
+        e1, e2 = physics.find(m1), physics.find(m2)
+        if (e1 is None) != (e2 is None) or (e1 is not None and type(e1) is not type(e2)):
+            res["violations"].append(core.viol("reloaded_design_differs", case, msg=f"{cfg['method']}/{cfg['pipe']}: API configuration ends with {e1!r}, the written file with {e2!r}", method=cfg["method"], how="outcome"))
+        elif e1 is None:
+            s1, s2 = physics.signature(m1), physics.signature(m2)
+            if s1 != s2:
+                diff = [k for k in s1 if s1[k] != s2[k]]
+                res["violations"].append(core.viol("reloaded_design_differs", case, msg=f"{cfg['method']}/{cfg['pipe']}: the design from the written file differs from the API configuration's in {diff} "
+                                                                                        f"(H {float.fromhex(s2['H'])} vs {float.fromhex(s1['H'])}, nbh {s2['nbh']} vs {s1['nbh']})", method=cfg["method"], how=diff[0]))
+        res.outcome("same_design_runs")
+        res["nontrivial"] += 1
+        res["sample"] = {"same_design": True, "cfg": {k: v for k, v in case["cfg"].items()}}
+    finally:
+        shutil.rmtree(tmp, ignore_errors=True)
+
+
 def run_case(case):
     res = core.Result(evals=0)
+    if case.get("same_design"):
+        run_same_design(case, res)
+        return res
     if "pipe" in case:
         check_config(case, res)
         return res
@@ -231,12 +266,21 @@ def main(run: core.Run, only=None):
     step = 10
     rot = [{"kind": "rotations", "lo": lo, "hi": min(361, lo + step)} for lo in range(0, 361, step)]
     run.drive(rot[::3] if quick else rot, family="rowwise-rotations")
+    sd = [{"method": "nearsquare", "geo": GEOS["nearsquare"][0], "pipe": "single", "fluid": ["Water", 0.0], "cap": None, "cont": False, "flow": "borehole", "flow_rate": 0.3},
+          {"method": "rowwise_none", "geo": {"perimeter_spacing_ratio": None, "min_rotation": -90.0 + 0.5 * 77, "max_rotation": 0.0}, "pipe": "coaxial", "fluid": ["PROPYLENEGLYCOL", 30.0], "cap": 12, "cont": True, "flow": "system", "flow_rate": 0.1 + 0.2 + 3}]
+    if not quick:
+        sd += [{"method": "rectangle", "geo": GEOS["rectangle"][0], "pipe": "double_series", "fluid": ["water", 0.0], "cap": 12, "cont": True, "flow": "borehole", "flow_rate": 0.3},
+               {"method": "birectangle", "geo": GEOS["birectangle"][0], "pipe": "single", "fluid": ["Water", 0.0], "cap": None, "cont": False, "flow": "system", "flow_rate": 4.0},
+               {"method": "bizoned", "geo": GEOS["bizoned"][0], "pipe": "double_parallel", "fluid": ["EthyleneGlycol", 20.0], "cap": None, "cont": True, "flow": "borehole", "flow_rate": 0.3},
+               {"method": "constrained_flat", "geo": GEOS["constrained_flat"][0], "pipe": "single", "fluid": ["Water", 0.0], "cap": None, "cont": False, "flow": "borehole", "flow_rate": 0.3},
+               {"method": "rowwise_ratio", "geo": GEOS["rowwise_ratio"][0], "pipe": "single", "fluid": ["Water", 0.0], "cap": None, "cont": False, "flow": "borehole", "flow_rate": 0.3}]
+    run.drive([{"same_design": True, "cfg": c} for c in sd], family="same-design")
     return run.finish(
         rule="complete product geometry method x value set x pipe x fluid x max_boreholes x continue x flow type, plus RowWise rotation "
              "windows on the 0.5 degree grid; one evaluation = one configuration written, validated, reloaded through the real "
              "command-line loader and written again; non-trivial = every configuration that reached the round trip",
         bounds={"methods": list(GEOS), "value_sets": 2 if quick else 3, "fluids": [f[0] for f in fluids], "rotation_grid_deg": 0.5},
         assumptions=["the nominal borehole height is not part of the configuration (the loader sets it to max_height; C13 checks "
-                     "that it does not matter)", "running the two managers to compare designs is C13's job (bit-identical signature)"],
+                     "that it does not matter)", "family same-design runs the real design for the API configuration and for the manager rebuilt from its written file: bit-identical signature"],
         require_outcomes=tuple(GEOS),
     )
